@@ -149,7 +149,7 @@ impl EdgeLabel for char {
         (state_id as int) < n0.states@.len() ==> *self == n0,
         n0.match_kind is LeftmostFirst ==> forall|k: int| 0 <= k < it2.index@ ==> !#[trigger] is_registered(n0, pat.take(k)),
 //@}
-//@before 1 if self.match_kind.is_leftmost_first() {{
+//@loopbody 2{
     let ghost i = it2.index@ as int;
     proof { lemma_add_mid_facts(n0, *self, pat, i, state_id as int); }
 //@}
